@@ -127,6 +127,9 @@ type vtimer struct {
 	deadline time.Time
 	cancel   context.CancelFunc
 	seq      int
+	// a ticker: fires every period by putting the virtual time into tick (capacity 1, like time.Ticker)
+	period time.Duration
+	tick   chan time.Time
 }
 
 // ExecResult is what one complete execution produced.
@@ -172,6 +175,7 @@ type sched struct {
 	describe   bool
 	writerPref bool
 	vnow       time.Time
+	vclock     bool // Now reports vnow
 
 	// sleep sets (unbounded mode only)
 	sleepMode bool
@@ -1012,6 +1016,9 @@ func (s *sched) fireTimer() bool {
 		if tm.stopped || tm.fired.Load() {
 			continue
 		}
+		if tm.tick != nil && len(tm.tick) == cap(tm.tick) {
+			continue // nobody took the previous tick: another one would be dropped and change nothing
+		}
 		if best == nil || tm.deadline.Before(best.deadline) || (tm.deadline.Equal(best.deadline) && tm.seq < best.seq) {
 			best = tm
 		}
@@ -1019,14 +1026,38 @@ func (s *sched) fireTimer() bool {
 	if best == nil {
 		return false
 	}
-	best.fired.Store(true)
-	if best.deadline.After(s.vnow) {
-		s.vnow = best.deadline
+	// Timers due at the same instant as a tick go off together with it, so that what they wake runs
+	// interleaved with the ticker's consumer in every order (without tickers: one timer per quiescence).
+	group := []*vtimer{best}
+	at := best.deadline
+	hasTick := best.tick != nil
+	for _, tm := range s.timers {
+		if tm != best && !tm.stopped && !tm.fired.Load() && tm.deadline.Equal(at) && !(tm.tick != nil && len(tm.tick) == cap(tm.tick)) {
+			group = append(group, tm)
+			hasTick = hasTick || tm.tick != nil
+		}
 	}
-	best.cancel()
-	s.res.Fired++
-	if s.describe {
-		s.res.Desc = append(s.res.Desc, "virtual timer fired (nothing else enabled)")
+	if !hasTick {
+		group = group[:1]
+	}
+	if at.After(s.vnow) {
+		s.vnow = at
+	}
+	for _, tm := range group {
+		if tm.tick != nil {
+			tm.tick <- s.vnow
+			tm.deadline = tm.deadline.Add(tm.period)
+			if s.describe {
+				s.res.Desc = append(s.res.Desc, "virtual ticker ticked (nothing else enabled)")
+			}
+			continue
+		}
+		tm.fired.Store(true)
+		tm.cancel()
+		s.res.Fired++
+		if s.describe {
+			s.res.Desc = append(s.res.Desc, "virtual timer fired (nothing else enabled)")
+		}
 	}
 	return true
 }
@@ -1558,6 +1589,87 @@ func VNow() time.Time {
 	return s.vnow
 }
 
+// VirtualClock makes Now report the virtual wall clock for the rest of this execution.
+//
+//go:norace
+func VirtualClock() {
+	if cur() == nil {
+		return
+	}
+	s.lk.lock()
+	s.vclock = true
+	s.lk.unlock()
+}
+
+// Now stands in for time.Now in instrumented code: the virtual wall clock once the execution asked
+// for it (VirtualClock), the real one otherwise.
+//
+//go:norace
+func Now() time.Time {
+	if cur() == nil {
+		return time.Now()
+	}
+	s.lk.lock()
+	defer s.lk.unlock()
+	if !s.vclock {
+		return time.Now()
+	}
+	return s.vnow
+}
+
+// Ticker stands in for time.Ticker in instrumented code. Under the scheduler it ticks in virtual time:
+// like every virtual timer only when nothing else can move, in deadline order, and never into a full channel.
+type Ticker struct {
+	C    <-chan time.Time
+	real *time.Ticker
+	tm   *vtimer
+}
+
+//go:norace
+func NewTicker(d time.Duration) *Ticker {
+	if cur() == nil {
+		rt := time.NewTicker(d)
+		return &Ticker{C: rt.C, real: rt}
+	}
+	if d <= 0 {
+		panic("non-positive interval for NewTicker")
+	}
+	ch := make(chan time.Time, 1)
+	s.lk.lock()
+	tm := &vtimer{deadline: s.vnow.Add(d), period: d, tick: ch, seq: s.timerSeq}
+	s.timerSeq++
+	s.timers = append(s.timers, tm)
+	s.lk.unlock()
+	return &Ticker{C: ch, tm: tm}
+}
+
+//go:norace
+func (t *Ticker) Stop() {
+	if t.real != nil {
+		t.real.Stop()
+		return
+	}
+	s.lk.lock()
+	t.tm.stopped = true
+	s.lk.unlock()
+}
+
+//go:norace
+func (t *Ticker) Reset(d time.Duration) {
+	if t.real != nil {
+		t.real.Reset(d)
+		return
+	}
+	if d <= 0 {
+		panic("non-positive interval for Ticker.Reset")
+	}
+	s.lk.lock()
+	t.tm.period = d
+	t.tm.deadline = s.vnow.Add(d)
+	t.tm.stopped = false
+	s.lk.unlock()
+}
+
 // deadlineCtx is what WithDeadline hands out: a standard cancel context (so that
 // contexts derived from it - also through value contexts - are registered with it and
 // cancelled synchronously) whose parent is the hidden vtimerCtx root; when the virtual
@@ -1645,6 +1757,7 @@ func runOnce(prefix []int, describe, sleepMode bool, body func()) *ExecResult {
 	s.clock = 0
 	s.describe = describe
 	s.vnow = time.Unix(1_000_000, 0)
+	s.vclock = false
 	s.sleepMode = sleepMode
 	s.ctxNodes = s.ctxNodes[:0]
 	s.sleep = s.sleep[:0]
